@@ -1,6 +1,7 @@
 package main
 
 import (
+	"context"
 	"fmt"
 	"sort"
 	"sync"
@@ -336,3 +337,103 @@ func indexByte(s string, b byte) int {
 }
 
 var _ sync.Mutex
+
+// c08CrossContract: two contracts A and B of one renter key with the same host, same allowance and collateral
+// (they differ in the proof height). The renter collects revisions of A that cost nothing (RPCFreeSectors
+// without indices), pays through B, and then broadcasts A's highest revision as a revision of B: the contract
+// signature hash does not cover the contract id. If consensus accepts that, the host's latest revision of B -
+// the one that holds the payment - has a lower revision number than the on-chain contract and can never be
+// confirmed.
+func c08CrossContract() {
+	u := univ.NewUniverse("rhp-two-contracts", univ.RegimeV2)
+	L := u.Nodes[0].L
+	hostKey, renterKey := rhpx.Key("verif-host"), rhpx.Key("verif-renter")
+	prices := rhpx.Prices(hostKey, 0, L.State.PrevTimestamps[0].AddDate(50, 0, 0))
+	a1 := u.As[1]
+	own := univ.OwnedSC(L, a1.Addr)
+	var txns []types.V2Transaction
+	var fcs []types.V2FileContract
+	var usages []proto4.Usage
+	for i, ph := range []uint64{500, 600} {
+		params := proto4.RPCFormContractParams{RenterPublicKey: renterKey.PublicKey(), RenterAddress: types.StandardUnlockHash(renterKey.PublicKey()),
+			Allowance: types.Siacoins(20), Collateral: types.Siacoins(10), ProofHeight: ph}
+		fc, usage := proto4.NewContract(prices, params, hostKey.PublicKey(), types.StandardUnlockHash(hostKey.PublicKey()))
+		h := L.State.ContractSigHash(fc)
+		fc.RenterSignature, fc.HostSignature = renterKey.SignHash(h), hostKey.SignHash(h)
+		txn := types.V2Transaction{SiacoinInputs: []types.V2SiacoinInput{{Parent: own[i].Copy()}}, FileContracts: []types.V2FileContract{fc}, MinerFee: types.Siacoins(1)}
+		rc, hc := proto4.ContractCost(L.State, fc, txn.MinerFee)
+		txn.SiacoinOutputs = []types.SiacoinOutput{{Address: a1.Addr, Value: own[i].SiacoinOutput.Value.Sub(rc).Sub(hc)}}
+		univ.SignV2(L.State, &txn, a1)
+		txns, fcs, usages = append(txns, txn), append(fcs, fc), append(usages, usage)
+	}
+	k := u.Add(0, 1, nil, txns, "formations")
+	if !u.Nodes[k].Valid {
+		run.Violate("c08:chain-setup", "formation block invalid: "+u.Nodes[k].Err, nil)
+		return
+	}
+	k = u.Add(k, 1, nil, nil, "")
+	tipL := u.Nodes[k].L
+	idA, idB := txns[0].V2FileContractID(txns[0].ID(), 0), txns[1].V2FileContractID(txns[1].ID(), 0)
+	fceB, ok := tipL.V2FCEs[idB]
+	if !ok {
+		run.Violate("c08:chain-setup", "contract element missing", nil)
+		return
+	}
+	n := node.New(u)
+	if err := n.CM.AddBlocks(u.Blocks(u.PathTo(k))); err != nil {
+		run.Violate("c08:chain-setup", err.Error(), nil)
+		return
+	}
+	w := rhpx.NewWorldWith(n.CM, nil, false)
+	defer w.Close()
+	w.Prices = rhpx.Prices(w.HostKey, w.CS.Index.Height, w.Prices.ValidUntil)
+	for i := range txns {
+		if err := w.Con.AddV2Contract(rhp.TransactionSet{Transactions: []types.V2Transaction{txns[i]}}, usages[i]); err != nil {
+			run.Violate("c08:chain-setup", "the host refuses the second contract of the renter key: "+err.Error(), nil)
+			return
+		}
+	}
+	w.Con.Take()
+	cA, cB := rhp.ContractRevision{ID: idA, Revision: fcs[0]}, rhp.ContractRevision{ID: idB, Revision: fcs[1]}
+	ctx := func() context.Context {
+		c, cancel := context.WithTimeout(context.Background(), 10*time.Second)
+		_ = cancel
+		return c
+	}
+	for i := 0; i < 3; i++ {
+		res, err := rhp.RPCFreeSectors(ctx(), w.T, w.RenterKey, w.CS, w.Prices, cA, nil)
+		if err != nil {
+			run.Distinct("cross-contract", "empty-free-refused")
+			return // the host does not hand out free revisions: nothing to replay
+		}
+		cA.Revision = res.Revision
+	}
+	fund, err := rhp.RPCFundAccounts(ctx(), w.T, w.CS, w.RenterKey, cB, []proto4.AccountDeposit{{Account: acc(rhpx.Key("c08-x")), Amount: types.Siacoins(5)}})
+	w.T.WaitIdle()
+	if err != nil {
+		run.Violate("c08:chain-setup", "funding through the second contract failed: "+err.Error(), nil)
+		return
+	}
+	cB.Revision = fund.Revision
+	run.Add(4, 4, 1, 1)
+	hostB := w.Snap(idB, nil, nil).Revision
+	hostA := w.Snap(idA, nil, nil).Revision
+	// the renter broadcasts A's latest revision as a revision of B
+	replayTxn := types.V2Transaction{FileContractRevisions: []types.V2FileContractRevision{{Parent: fceB.Copy(), Revision: hostA}}}
+	if verr := consensus.ValidateV2Transaction(consensus.NewMidState(tipL.State), replayTxn); verr != nil {
+		run.Distinct("cross-contract", "replay-rejected-by-consensus")
+		return // consensus tells the two contracts apart: fine
+	}
+	b := univ.BuildBlock(tipL, univ.TS(u.Net, tipL.State.Index.Height+1, 4), u.As[3].Addr, nil, []types.V2Transaction{replayTxn})
+	L2, _, aerr := tipL.ApplyBlock(b)
+	if aerr != nil {
+		run.Distinct("cross-contract", "replay-block-invalid")
+		return
+	}
+	onchain := L2.V2FCEs[idB]
+	rtxn := types.V2Transaction{FileContractRevisions: []types.V2FileContractRevision{{Parent: onchain.Copy(), Revision: hostB}}}
+	run.Distinct("cross-contract", "replay-accepted")
+	if verr := consensus.ValidateV2Transaction(consensus.NewMidState(L2.State), rtxn); verr != nil {
+		run.Violate("c08:cross-contract-revision-replay", fmt.Sprintf("one renter key, contracts A and B with the same host: the doubly signed revision %d of A (payouts untouched, obtained through %d free RPCFreeSectors without indices) is accepted by consensus as a revision of B; after that the host's latest revision of B (revision %d, holding a 5 SC payment) is rejected: %v", hostA.RevisionNumber, hostA.RevisionNumber, hostB.RevisionNumber, verr), nil)
+	}
+}
